@@ -270,7 +270,19 @@ class TorchDistribution:
         :return: Log probability of the action.
         :rtype: torch.Tensor
         """
-        _action = action if not self.squash_output else self.sampled_action
+        _action = action
+        if self.squash_output:
+            # Use the cached pre-squash sample for the action that was just sampled,
+            # otherwise (e.g. stored actions) invert the squashing
+            if (
+                self.sampled_action is not None
+                and self.sampled_action.shape == action.shape
+                and torch.equal(torch.tanh(self.sampled_action), action)
+            ):
+                _action = self.sampled_action
+            else:
+                eps = torch.finfo(action.dtype).eps
+                _action = torch.atanh(action.clamp(min=-1.0 + eps, max=1.0 - eps))
 
         log_prob = self._handler.log_prob(self.distribution, _action)
 
